@@ -1069,8 +1069,63 @@ func (w *World) Exec(op hx.Zs) []hx.Zs {
 		}
 	}
 	out := w.drain()
+	account(op, out)
 	return append(out, ret...)
 }
+
+// ---- measured distribution of what the implementation did (for the evidence)
+
+var stats = map[string]int{}
+
+func account(op hx.Zs, out []hx.Zs) {
+	if len(op) == 0 || op[0] != 8 {
+		return
+	}
+	r := &rd{z: op, i: 2}
+	d := r.dgram()
+	cls := "result"
+	if !d.Result {
+		cls = []string{"read", "reply", "notify", "write", "call"}[d.Cls]
+	}
+	stats["datagram:"+cls]++
+	if d.Ack {
+		stats["datagram:ackRequest"]++
+	}
+	if d.Ref == 0 {
+		stats["datagram:without-reference"]++
+	}
+	var replies, oks, errs, invs int
+	for _, o := range out {
+		switch {
+		case len(o) > 0 && o[0] == 1:
+			replies++
+		case len(o) > 3 && o[0] == 2 && o[3] == 0:
+			oks++
+		case len(o) > 3 && o[0] == 2:
+			errs++
+			stats[fmt.Sprintf("error-number:%d", o[3])]++
+		case len(o) > 0 && o[0] == 3:
+			invs++
+		}
+	}
+	stats["responses:reply"] += replies
+	stats["responses:result-success"] += oks
+	stats["responses:result-error"] += errs
+	stats["callback-invocations"] += invs
+	if replies+oks+errs == 0 {
+		stats["datagrams-without-response"]++
+	}
+	if replies+oks+errs > 1 {
+		stats["datagrams-with-two-responses"]++
+	}
+	if invs > 0 {
+		stats["datagrams-invoking-callbacks"]++
+	}
+}
+
+// Stats returns the distribution measured on the implementation side since start-up
+// (including the executions the shrinker repeats).
+func Stats() map[string]int { return stats }
 
 // registered: does the function factory create function data for this function on this feature type?
 func registered(ft model.FeatureTypeType, fct model.FunctionType) bool {
